@@ -77,6 +77,13 @@ def cases(tier, seed):
                         for w in (("scalar", "vector") if n_out == 2 and oslice == "all" else ("scalar",)):
                             for obs_param in (False, True):
                                 out.append(dict(type="obs", kind=kind, d=d, n_out=n_out, rows=rows, oslice=oslice, weight=w, obs_param=obs_param))
+                            if rows > 1 and oslice == "all" and w == "scalar":
+                                # the observed column and a parameter batch on the *same* key: the observed rows win for the observation
+                                # term; the other terms (initial condition) keep seeing the parameter batch
+                                out.append(dict(type="obs", kind=kind, d=d, n_out=n_out, rows=rows, oslice=oslice, weight=w, obs_param=True, param_same_key=True))
+                                if kind == "nonstatio":
+                                    # observed column only: the initial-condition term of the same evaluation keeps the caller's value
+                                    out.append(dict(type="obs", kind=kind, d=d, n_out=n_out, rows=rows, oslice=oslice, weight=w, obs_param=True, ic_too=True))
     out.sort(key=lambda c: (c["type"], c["d"], c.get("rows", 0)))
     return out
 
@@ -197,12 +204,31 @@ def run_case(case):
             loss = L.quiet(jinns.loss.LossPDEStatio, u=u, dynamic_loss=None, obs_slice=osl, loss_weights=jinns.loss.LossWeightsPDEStatio(observations=wj), params=params)
         else:
             loss = L.quiet(jinns.loss.LossPDENonStatio, u=u, dynamic_loss=None, obs_slice=osl, loss_weights=jinns.loss.LossWeightsPDENonStatio(observations=wj), params=params)
-        batch = L.make_batch(kind, L.points(rows, nv), obs=obs)
+        same = case.get("param_same_key", False)
+        prow = np.array([[1.9 - 0.45 * i] for i in range(rows)])
+        ic_kw = {}
+        ic_too = case.get("ic_too", False)
+        if (same or ic_too) and kind == "nonstatio":
+            ic_kw = dict(initial_condition_fun=lambda x: jnp.sin(x[0]) * jnp.ones((n_out,)))
+            loss = L.quiet(jinns.loss.LossPDENonStatio, u=u, dynamic_loss=None, obs_slice=osl,
+                           loss_weights=jinns.loss.LossWeightsPDENonStatio(observations=wj, initial_condition=1.0), params=params, **ic_kw)
+        batch = L.make_batch(kind, L.points(rows, nv), obs=obs, param={"k": jnp.asarray(prow)} if same else None)
         zin = pin * (kcol[:, None] if obs_param else 1.0)
         U = L.jets(coef, expo, zin, [()])[()].T  # (rows, n_out)
         U = U[:, sel]
         exp = float(np.mean(np.sum(np.asarray(wv) * (U - val) ** 2, axis=-1)))
-        got = float(L.jit_eval(loss, params, batch)[1]["observations"])
+        terms_ = L.jit_eval(loss, params, batch)[1]
+        got = float(terms_["observations"])
+        if (same or ic_too) and kind == "nonstatio":
+            # initial-condition term: row i sees row i of the *parameter batch* if there is one, else the caller's value
+            # (never the observed column)
+            X0 = np.asarray(batch.times_x_inside_batch)[:, 1:]
+            z0 = np.concatenate([np.zeros((rows, 1)), X0], axis=1) * (prow if same else 1.0)
+            U0 = np.stack([L.jets(coef, expo, z0[i:i + 1], [()])[()][:, 0] for i in range(rows)])
+            exp_ic = float(np.mean(np.sum((np.sin(X0[:, :1]) - U0) ** 2, axis=-1)))
+            got_ic = float(terms_["initial_condition"])
+            if not close(got_ic, exp_ic):
+                v.append(V("initial_condition/nonstatio", "initial_condition_term_sees_the_observed_column_instead_of_the_parameter_batch", f"{case}: got {got_ic} expected {exp_ic}"))
         if not close(got, exp):
             v.append(V(site, "observation_term_differs_from_definition" + ("(observed_parameter_rows)" if obs_param else ""), f"{case}: got {got} expected {exp}"))
         nontriv = exp > 0
